@@ -7,7 +7,33 @@ GEN = "translator tools/gen (Go AST -> coq/Gen/*.v), fails closed on unrecognise
 
 MD4NOTE = "strong hash: theorems are parametric in H; the model is executed with a native OCaml MD4 in the driver (the Gallina MD4 of Model/Md4.v is cross-checked against the implementation by component md4)"
 
+FSNOTE = "file-system and OS behaviour (os.Root, renameio, rename(2), utimes, real sockets/pipes) is observed through end-to-end sessions run in worker subprocesses, not modelled in this property"
+
 PROPS = {
+    "C01": {
+        "components": ["sync", "sender", "recv"],
+        "trusted_base": [KERNEL, EXTRACT, HARNESSTB, GEN, MD4NOTE, FSNOTE,
+                         "modelled, not verified: source-argument -> destination-path mapping across arrangements, file-list walk (covered by the end-to-end oracle only)"],
+        "assumptions": [
+            "sync_file_correct covers one file through generator+sender+receiver for sizes < 2^40 under the explicit no_collision hypothesis; the tree level (path mapping, walk, four arrangements) is decided by the end-to-end oracle, not by a theorem (label partial)",
+            "oracle: standard rsync mapping of source arguments (dir vs dir/) to destination paths, byte comparison of every selected regular file",
+        ],
+        "rule": "end to end: random source trees (nesting, names with spaces / non-UTF-8 bytes, sizes 0,1,699..701,1399..1401,4096,7000,64Ki,256Ki-1..256Ki+1 and 0.7-1.3 MiB incl. n*700 and 1000*1000, high/low entropy) x prior destination per file (absent, identical, identical with older mtime, unrelated, edited, emptied, truncated, extended, same-size with unchanged tail, symlink / empty dir / fifo in the way) x 10 option sets x 5 arrangements (pull, push, local, library pull, library push) x source shapes (root, dir/, dir, two sources); every session runs in a worker subprocess. plus the C02 sender/receiver correspondence. non-trivial = session with at least one delta transfer",
+        "exhaustive": False,
+        "label": "partial: file-level pipeline is a theorem; tree/path-mapping level by end-to-end oracle",
+    },
+    "C12": {
+        "components": ["update"],
+        "trusted_base": [KERNEL, EXTRACT, HARNESSTB, GEN, MD4NOTE, FSNOTE],
+        "assumptions": [
+            "a transfer is observed as a change of the destination file's inode (every transfer re-creates the file through a temporary file)",
+            "directory mtimes are outside this property",
+        ],
+        "rule": "the complete decision table {missing, symlink, directory, file with same / larger / smaller size} x {mtime equal, +1 s, -1 s, +0.4 s, +0.9 s, -0.3 s, +1 day} x {content equal, different} x {default, -c, -I, -c -I} x {-t on, off} x {pull, local, push}, embedded in random trees, through real sessions; each cell also evaluated by the model (gen_decision) and by the property's rule; generator block checksums for sizes around the 700-byte and sqrt boundaries vs the model; repeat-sync idempotence on random trees (no inode change, identical file snapshot). non-trivial = every table cell",
+        "exhaustive": True,
+        "exhaustive_note": "the decision table is enumerated completely in every tier",
+        "label": "full",
+    },
     "C02": {
         "components": ["sender", "recv"],
         "trusted_base": [KERNEL, EXTRACT, HARNESSTB, GEN, MD4NOTE,
